@@ -12,3 +12,8 @@ func verifBatchID(changeArray [][]any) string           { return "" }
 func verifChangeSeqs(changeArray [][]any) [][3]uint64   { return nil }
 func verifWanted(answer []any, n int) []bool            { return nil }
 func verifCollIdx(idx *int) int                         { return -1 }
+func verifHash(s string) uint32                         { return 0 }
+func verifEntryKind(e *LogEntry) string                 { return "" }
+func (c *changeCache) verifSkipped() [][2]uint64        { return nil }
+func (c *changeCache) verifState() []any                { return nil }
+func (c *changeCache) verifPre() [4]uint64              { return [4]uint64{} }
